@@ -1572,3 +1572,44 @@ def absence_is_an_error(F, fb, g):
         if not fin_ or not ('Result<' in fin_[-1].full or fin_[-1].is_(r'try_')):
             return False, 'the results are not gathered into a Result (%s)' % (last.name if last else 'no consumer')
     return True, ''
+
+
+FN_CALLS = (r'^std::ops::FnOnce::call_once$', r'^std::ops::FnMut::call_mut$', r'^std::ops::Fn::call$')
+
+
+def called_closures(F, body, call, depth=0):
+    """Closure bodies that an indirect call `f(args)` (Fn* ::call*) runs, when `f` is a closure built in this body or captured by
+    this closure from the body that built it (a helper that takes a closure and calls it from inside its own closure)."""
+    out = []
+    if depth > 3 or not any(call.is_(p) for p in FN_CALLS) or not call.args or not is_place(call.args[0]):
+        return out
+    for s in copy_chain_sources(body, call.args[0], through_calls=IDENTITY_CALLS):
+        if s[0] == 'agg' and 'closure' in s[1]:
+            cb = F.get(s[1]['closure'])
+            if cb is not None:
+                out.append(cb)
+        elif s[0] == 'param' and s[1] == 1 and body.kind == 'Closure':
+            idx = [x for x in s[2] if x != '*'][:1]
+            names = body.upvar_names()
+            if isinstance(names, (list, tuple)):
+                names = dict(enumerate(names))
+            k = None
+            if idx:
+                nm = str(idx[0])
+                if nm.isdigit():
+                    k = int(nm)
+                else:
+                    for i, n_ in names.items():
+                        if nm == n_ or nm == '_ref__' + n_ or nm.endswith('__' + n_):
+                            k = i
+            if k is not None:
+                pb, o = upvar_operand(F, body, k)
+                if pb is not None and o is not None and is_place(o):
+                    for (cb, _rv) in closures_in_local(F, pb, op_local(o)):
+                        out.append(cb)
+    if not out:
+        l = op_local(call.args[0])
+        for (cb, _rv) in closures_in_local(F, body, l):
+            out.append(cb)
+    return out
+
